@@ -401,3 +401,55 @@ def replay_client_schedule(k, sched, seed=0):
         return {'log': log, 'final': final}, leftover
     finally:
         w.close()
+
+
+def replay_server_schedule(sched, seed=0):
+    """spec -> code at L2 for the threaded server: drive one polling session under a schedule
+    generated by TLC from EioQueueFineSim (entries [p, k]: k = kind starts task p, "" steps it)."""
+    w = W.make_world('sync', {'ping_interval': 4000, 'ping_timeout': 2000, 'monitor': False},
+                     seed=seed, preempt=False)
+    try:
+        w.connect_plan = [('accept', False)]
+        w.http('GET', 'transport=polling&EIO=4')
+        w.quiesce()
+        sid, so = w.sids[1], w.socks[1]
+        qs = 'transport=polling&EIO=4&sid=' + sid
+        hub = w.hub
+        hub.primlog = []
+        hub.scripted = so.queue
+        hub.script_skip = ()
+        tasks = {}
+        for ent in sched:
+            p, k = ent['p'], ent['k']
+            if k:
+                if k == 'poll':
+                    t = w.reqs[w.http('GET', qs, slot=1)].task
+                elif k == 'postclose':
+                    t = w.reqs[w.http('POST', qs, body=b'1', slot=1)].task
+                elif k == 'send':
+                    t = w.reqs[w.app_send(1)]['task']
+                elif k == 'disc':
+                    w.nreq += 1
+                    t = w.reqs[w.app_disconnect_with_id(1, w.nreq)]['task']
+                else:
+                    raise ValueError(k)
+                t.proc = p
+                tasks[p] = t
+            else:
+                try:
+                    hub.step(tasks[p])
+                except RuntimeError as e:
+                    raise RuntimeError('%s at schedule entry %d; log so far: %r' % (
+                        e, sched.index(ent), [(x['t'], x['op']) for x in hub.primlog][-8:]))
+        hub.scripted = None
+        hub.primlog = None
+        snap = w.snapshot(1)
+        final = {'q': snap['ss'][0]['q'], 'unf': snap['ss'][0]['unf'],
+                 'closed': snap['ss'][0]['closed'], 'closing': snap['ss'][0]['closing'],
+                 'intable': sid in w.server.sockets,
+                 'ev': [e[5:] for e in snap['ev'][0] if e.startswith('disc:')],
+                 'deliv': [d[0] for d in snap['deliv'][0]], 'sent': len(w.accepted.get(1, [])),
+                 'done': {p: bool(t.done) for p, t in tasks.items()}}
+        return final
+    finally:
+        w.close()
